@@ -5,7 +5,7 @@ import os, re
 ROOT = os.path.dirname(os.path.dirname(os.path.dirname(os.path.dirname(os.path.abspath(__file__)))))
 src = open(os.path.join(ROOT, "lean", "Props", "Uncond.lean")).read()
 body = src[src.index("namespace Uncond"):src.rindex("end Uncond")]
-BASE = {"mem_table", "primeP", "primeN", "factP", "all_primes_given", "order_small"}
+BASE = {"mem_table", "primeP", "primeN", "factP", "all_primes", "order_small"}
 PROP = {
     "C01": ["sign_then_verify", "sign_then_verify_six_encoders"],
     "C02": ["verifies_iff_fips"],
@@ -53,12 +53,11 @@ while i < len(lines):
     if ln.strip() != "":
         doc = []
     i += 1
-base = [by_name[n] for n in ["mem_table", "primeP", "primeN", "factP", "all_primes_given", "order_small"]]
+base = [by_name[n] for n in ["mem_table", "primeP", "primeN", "factP", "all_primes", "order_small"]]
 open(os.path.join(ROOT, "lean", "Proofs", "UncondBase.lean"), "w").write('''import Props.NamedPrimes
 /-!
-# Proofs.UncondBase — shared by the per-property files `Props/Uncond<Cxx>.lean`: membership / primality of the 13 curves of
-`NamedPrimes.unconditionalCurves` from the kernel-checked certificates, and primality of all 34 numbers of the table from
-the four uncertified ones
+# Proofs.UncondBase — shared by the per-property files `Props/Uncond<Cxx>.lean`: membership / primality of the (now all 17) certified curves of
+`NamedPrimes.unconditionalCurves` from the kernel-checked certificates, and primality of all 34 numbers of the table
 -/
 namespace Uncond
 open Named NamedPrimes Ecdsa GroupInterface Jac
@@ -91,9 +90,9 @@ for pid in PROP:
     txt += '''/-!
 # %s — %s: %s on the named curves with NO primality hypothesis
 
-For every curve of `NamedPrimes.unconditionalCurves` (13 curves: p and n carry kernel-checked Pocklington certificates, the
+For every curve of `NamedPrimes.unconditionalCurves` (all 17 curves of the table since the last four certificates were found: p and n carry kernel-checked Pocklington certificates, the
 order of the base point is checked by kernel evaluation) the headline statements of %s hold without any hypothesis about the
-curve, except `#E(𝔽_p) = n` where stated; for the 4 curves with one uncertified number (`…_<curve>`) with exactly that one.
+curve, except `#E(𝔽_p) = n` where stated.
 Generated from `Props/Uncond.lean` by harness/tools/primecerts/mkuncond_split.py.
 -/
 namespace %s
